@@ -8,6 +8,7 @@ package descgen
 
 import (
 	"fmt"
+	"strings"
 
 	"buf.build/gen/go/bufbuild/protovalidate/protocolbuffers/go/buf/validate"
 	"github.com/pentops/j5/gen/j5/ext/v1/ext_j5pb"
@@ -16,6 +17,8 @@ import (
 	_ "github.com/pentops/j5/j5types/any_j5t"
 	_ "github.com/pentops/j5/j5types/date_j5t"
 	_ "github.com/pentops/j5/j5types/decimal_j5t"
+	"google.golang.org/genproto/googleapis/api/annotations"
+	_ "google.golang.org/genproto/googleapis/api/httpbody"
 	"google.golang.org/protobuf/proto"
 	"google.golang.org/protobuf/reflect/protodesc"
 	"google.golang.org/protobuf/reflect/protoreflect"
@@ -83,8 +86,17 @@ func DepFiles() ([]*descriptorpb.FileDescriptorProto, error) {
 			return nil, err
 		}
 	}
+	// available to every set, imported only by files that get services (addServices)
+	for _, p := range ServiceDepPaths {
+		if err := add(p); err != nil {
+			return nil, err
+		}
+	}
 	return out, nil
 }
+
+// ServiceDepPaths are the extra imports of a generated file with services.
+var ServiceDepPaths = []string{"google/api/annotations.proto", "google/api/httpbody.proto"}
 
 // Profile selects the input class.
 type Profile struct {
@@ -93,9 +105,10 @@ type Profile struct {
 	MaxFiles  int
 	Comments  bool // attach leading comments (descriptions)
 	CrossPkg  bool // bias towards several files, a sub-package first, and references across files
-	Collide   bool // add descriptors whose split names (path joined by "_") coincide
+	Collide   int  // >0: add descriptors whose split names (path joined by "_") coincide (variant 1..4, see addCollision)
 	Clash     bool // add a message whose exposed oneof and a field get the same JSON property name
 	FlatCycle int  // >0: add a crafted cycle of that many messages each flattening the next (negative: with a chain leading into it)
+	Services  int  // percent chance that a generated file gets services / topics (addServices; C15)
 	FlatDeep  int  // >0: add a crafted chain of that many nested flatten levels, several properties of differing kinds at every level
 	OddPkg    bool // some package names APIFromImage cannot file: no version part, two version parts, two parts after the version
 }
@@ -145,6 +158,7 @@ func (g *gen) chance(p int) bool   { return g.r.Chance(p) }
 func pick[T any](g *gen, xs []T) T { return xs[g.r.Intn(len(xs))] }
 
 var pkgNames = []string{"gen.a.v1", "gen.b.v1", "gen.a.v1.sub", "gen.c.v2", "gen.b.v1.topic", "gen.c.v2.service", "gen.d.v1.sandbox"}
+
 // package names around splitPackageParts: unversioned, "v1beta" (not a version part), two version parts,
 // two parts after the version, a bare version, a two-digit version with a sub-package
 var oddPkgNames = []string{"gen.x", "gen.f.v1beta", "gen.e.v1.v2", "gen.a.v1.s.t", "v3", "gen.g.v10.sub", "gen.h.v1x.v2"}
@@ -195,9 +209,9 @@ func Generate(r *vh.Rand, p Profile, deps []*descriptorpb.FileDescriptorProto) *
 	if nFiles > 1 {
 		g.tag("multi-file")
 	}
-	if p.Collide {
-		addCollision(c.Gen[0], r.Chance(50))
-		g.tag("split-name-collision-crafted")
+	if p.Collide > 0 {
+		addCollision(c.Gen[0], p.Collide)
+		g.tag(fmt.Sprintf("split-name-collision-crafted-%d", p.Collide))
 	}
 	if p.Clash {
 		addOneofClash(c.Gen[0])
@@ -205,6 +219,18 @@ func Generate(r *vh.Rand, p Profile, deps []*descriptorpb.FileDescriptorProto) *
 	}
 	if p.Supported {
 		repairSupported(c.Gen)
+	}
+	if p.Services > 0 {
+		for fi, fd := range c.Gen {
+			// a service in a package without a sub-package part is an error of its own ("missing
+			// sub-package name"): mostly put them where they belong
+			parts := strings.Split(fd.GetPackage(), ".")
+			last := parts[len(parts)-1]
+			inSub := len(last) > 0 && !(last[0] == 'v' && len(last) > 1 && last[1] >= '0' && last[1] <= '9')
+			if r.Chance(p.Services) && (inSub || r.Chance(20)) {
+				addServices(g, fd, fi)
+			}
+		}
 	}
 	if p.FlatDeep > 0 {
 		addFlattenChain(c.Gen[0], p.FlatDeep)
@@ -1720,11 +1746,10 @@ func repairSupported(files []*descriptorpb.FileDescriptorProto) {
 	}
 }
 
-
 // addCollision appends `message Col { enum Kind; message Inner }`, `message Col_Kind` (with a field
 // of type Col.Kind, optionally carrying an enum rule) and `message Col_Inner` (with a field of type
 // Col.Inner): an enum and a message, and two messages, whose schema names coincide.
-func addCollision(fd *descriptorpb.FileDescriptorProto, withRule bool) {
+func addCollision(fd *descriptorpb.FileDescriptorProto, variant int) {
 	pkg := "." + fd.GetPackage()
 	opt := descriptorpb.FieldDescriptorProto_LABEL_OPTIONAL.Enum()
 	col := &descriptorpb.DescriptorProto{
@@ -1745,7 +1770,8 @@ func addCollision(fd *descriptorpb.FileDescriptorProto, withRule bool) {
 	}
 	k := &descriptorpb.FieldDescriptorProto{Name: proto.String("k"), Number: proto.Int32(1), Label: opt,
 		Type: descriptorpb.FieldDescriptorProto_TYPE_ENUM.Enum(), TypeName: proto.String(pkg + ".Col.Kind")}
-	if withRule {
+	if variant == 2 {
+		// variant 2: the enum field carries a rule (until the guard in buildEnumFieldSchema: a panic)
 		k.Options = &descriptorpb.FieldOptions{}
 		proto.SetExtension(k.Options, validate.E_Field, &validate.FieldConstraints{Type: &validate.FieldConstraints_Enum{Enum: &validate.EnumRules{In: []int32{1}}}})
 	}
@@ -1754,9 +1780,29 @@ func addCollision(fd *descriptorpb.FileDescriptorProto, withRule bool) {
 		{Name: proto.String("i"), Number: proto.Int32(1), Label: opt, Type: descriptorpb.FieldDescriptorProto_TYPE_MESSAGE.Enum(), TypeName: proto.String(pkg + ".Col.Inner")},
 		{Name: proto.String("s"), Number: proto.Int32(2), Label: opt, Type: descriptorpb.FieldDescriptorProto_TYPE_STRING.Enum()},
 	}}
+	switch variant {
+	case 3:
+		// variant 3: the enum is referred to (and its schema registered) before the message with the
+		// same split name is read: that message is then answered with the enum schema
+		col.Field = append(col.Field, &descriptorpb.FieldDescriptorProto{Name: proto.String("kind"), Number: proto.Int32(1), Label: opt,
+			Type: descriptorpb.FieldDescriptorProto_TYPE_ENUM.Enum(), TypeName: proto.String(pkg + ".Col.Kind")})
+		colKind.Field = []*descriptorpb.FieldDescriptorProto{
+			{Name: proto.String("x"), Number: proto.Int32(1), Label: opt, Type: descriptorpb.FieldDescriptorProto_TYPE_STRING.Enum()},
+		}
+	case 4:
+		// variant 4: an exposed real oneof Col.pick and a message Col_pick
+		oo := &descriptorpb.OneofOptions{}
+		proto.SetExtension(oo, ext_j5pb.E_Oneof, &ext_j5pb.OneofOptions{Expose: true})
+		col.OneofDecl = []*descriptorpb.OneofDescriptorProto{{Name: proto.String("pick"), Options: oo}}
+		col.Field = append(col.Field,
+			&descriptorpb.FieldDescriptorProto{Name: proto.String("a"), Number: proto.Int32(1), Label: opt, Type: descriptorpb.FieldDescriptorProto_TYPE_STRING.Enum(), OneofIndex: proto.Int32(0)},
+			&descriptorpb.FieldDescriptorProto{Name: proto.String("b"), Number: proto.Int32(2), Label: opt, Type: descriptorpb.FieldDescriptorProto_TYPE_INT64.Enum(), OneofIndex: proto.Int32(0)})
+		fd.MessageType = append(fd.MessageType, &descriptorpb.DescriptorProto{Name: proto.String("Col_pick"), Field: []*descriptorpb.FieldDescriptorProto{
+			{Name: proto.String("y"), Number: proto.Int32(1), Label: opt, Type: descriptorpb.FieldDescriptorProto_TYPE_BOOL.Enum()},
+		}})
+	}
 	fd.MessageType = append(fd.MessageType, col, colKind, colInner)
 }
-
 
 // addFlattenCycle appends messages Cyc0 .. Cyc<n-1>, each with a flattened object field of the next
 // (the last of the first) and one scalar; with lead, a message CycLead flattens Cyc0 (a chain into
@@ -1843,4 +1889,150 @@ func addOneofClash(fd *descriptorpb.FileDescriptorProto) {
 			{Name: proto.String("fooBar"), Number: proto.Int32(2), Label: opt, Type: descriptorpb.FieldDescriptorProto_TYPE_STRING.Enum()},
 		},
 	})
+}
+
+// addServices appends one or two services / topics to the file, with the request / response / message
+// types they name, as structure.APIFromImage's addStructure reads them: mostly well-formed
+// (`FooService` with `GetFoo(GetFooRequest) returns (GetFooResponse)` and a google.api.http rule whose
+// path parameters are request fields; `FooTopic` with `Foo(FooMessage) returns (google.protobuf.Empty)`),
+// and, with a small chance per site, each of the things buildService / buildMethod / buildTopic reject:
+// an unsupported service name, a request / response / message of another name or package, a missing or
+// custom http rule, a path parameter that is not a field, an invalid path part, state-query method
+// annotations on a service that is not a state-query service or without a part.
+func addServices(g *gen, fd *descriptorpb.FileDescriptorProto, fi int) {
+	r := g.r
+	pkg := "." + fd.GetPackage()
+	opt := descriptorpb.FieldDescriptorProto_LABEL_OPTIONAL.Enum()
+	str := descriptorpb.FieldDescriptorProto_TYPE_STRING.Enum()
+	for _, p := range ServiceDepPaths {
+		fd.Dependency = append(fd.Dependency, p)
+	}
+	odd := func() bool { return r.Chance(7) }
+	msg := func(name string, fields ...string) string {
+		d := &descriptorpb.DescriptorProto{Name: proto.String(name)}
+		for i, f := range fields {
+			d.Field = append(d.Field, &descriptorpb.FieldDescriptorProto{Name: proto.String(f), Number: proto.Int32(int32(i + 1)), Label: opt, Type: str})
+		}
+		fd.MessageType = append(fd.MessageType, d)
+		return pkg + "." + name
+	}
+	n := 1 + r.Intn(2)
+	for si := 0; si < n; si++ {
+		base := fmt.Sprintf("Svc%d%c", fi, 'A'+si)
+		topic := r.Chance(40)
+		suffix := "Service"
+		switch {
+		case topic:
+			suffix = "Topic"
+		case r.Chance(15):
+			suffix = "Sandbox"
+		case r.Chance(8):
+			suffix = "Events"
+		}
+		if odd() {
+			suffix = pick(g, []string{"", "Handler", "Services", "topic"})
+			g.tag("service-name-unsupported")
+		}
+		svc := &descriptorpb.ServiceDescriptorProto{Name: proto.String(base + suffix)}
+		kind := 0 // 1 state query, 2 state command
+		if !topic && r.Chance(30) {
+			kind = 1 + r.Intn(2)
+			so := &ext_j5pb.ServiceOptions{}
+			if kind == 1 {
+				so.Type = &ext_j5pb.ServiceOptions_StateQuery_{StateQuery: &ext_j5pb.ServiceOptions_StateQuery{Entity: "foo"}}
+			} else {
+				so.Type = &ext_j5pb.ServiceOptions_StateCommand_{StateCommand: &ext_j5pb.ServiceOptions_StateCommand{Entity: "foo"}}
+			}
+			svc.Options = &descriptorpb.ServiceOptions{}
+			proto.SetExtension(svc.Options, ext_j5pb.E_Service, so)
+		}
+		nm := 1 + r.Intn(2)
+		for mi := 0; mi < nm; mi++ {
+			mn := fmt.Sprintf("%sDo%d", base, mi)
+			m := &descriptorpb.MethodDescriptorProto{Name: proto.String(mn)}
+			if topic || suffix == "topic" {
+				in := mn + "Message"
+				if odd() {
+					in = mn + "Msg"
+					g.tag("topic-message-misnamed")
+				}
+				m.InputType = proto.String(msg(in, "id", "note"))
+				m.OutputType = proto.String(".google.protobuf.Empty")
+				if odd() {
+					m.OutputType = proto.String(msg(mn+"Reply", "ok"))
+					g.tag("topic-output-not-empty")
+				}
+				svc.Method = append(svc.Method, m)
+				continue
+			}
+			in := mn + "Request"
+			if odd() {
+				in = mn + "Req"
+				g.tag("service-request-misnamed")
+			}
+			m.InputType = proto.String(msg(in, "id", "tenant_id", "q"))
+			switch {
+			case odd():
+				m.OutputType = proto.String(msg(mn+"Reply", "ok"))
+				g.tag("service-response-misnamed")
+			case r.Chance(10):
+				m.OutputType = proto.String(".google.api.HttpBody")
+				g.tag("service-response-httpbody")
+			default:
+				m.OutputType = proto.String(msg(mn+"Response", "ok"))
+			}
+			path := pick(g, []string{"/foo/v1/x", "/foo/v1/{id}", "/foo/v1/{tenant_id}/x/{id}", "/", "", "/a//b", "/foo/{q}/"})
+			if odd() {
+				path = pick(g, []string{"/foo/{missing}", "/foo/a*b", "/foo/{id", "/foo/id}", "/foo/{}", "/foo/x:y", "/{", "/foo/{id}/{nope}"})
+				g.tag("service-path-invalid")
+			}
+			rule := &annotations.HttpRule{}
+			switch r.Intn(5) {
+			case 0:
+				rule.Pattern = &annotations.HttpRule_Get{Get: path}
+			case 1:
+				rule.Pattern = &annotations.HttpRule_Post{Post: path}
+			case 2:
+				rule.Pattern = &annotations.HttpRule_Put{Put: path}
+			case 3:
+				rule.Pattern = &annotations.HttpRule_Delete{Delete: path}
+			default:
+				rule.Pattern = &annotations.HttpRule_Patch{Patch: path}
+			}
+			if odd() {
+				if r.Chance(50) {
+					rule.Pattern = &annotations.HttpRule_Custom{Custom: &annotations.CustomHttpPattern{Kind: "HEAD", Path: path}}
+				} else {
+					rule.Pattern = nil
+				}
+				g.tag("service-http-pattern-unsupported")
+			}
+			m.Options = &descriptorpb.MethodOptions{}
+			if odd() {
+				g.tag("service-http-rule-missing")
+			} else {
+				proto.SetExtension(m.Options, annotations.E_Http, rule)
+			}
+			if kind == 1 && r.Chance(70) || odd() {
+				sq := &ext_j5pb.StateQueryMethodOptions{}
+				switch r.Intn(4) {
+				case 0:
+					sq.Get = true
+				case 1:
+					sq.List = true
+				case 2:
+					sq.ListEvents = true
+				default:
+					g.tag("service-state-query-without-part")
+				}
+				proto.SetExtension(m.Options, ext_j5pb.E_Method, &ext_j5pb.MethodOptions{StateQuery: sq})
+				g.tag("service-state-query-method")
+			} else if r.Chance(20) {
+				proto.SetExtension(m.Options, ext_j5pb.E_Method, &ext_j5pb.MethodOptions{Label: "x"})
+			}
+			svc.Method = append(svc.Method, m)
+		}
+		fd.Service = append(fd.Service, svc)
+		g.tag("service-or-topic-crafted")
+	}
 }
